@@ -5,7 +5,7 @@
   OBLIGATIONS (checked by the harness: every name is a theorem of this file, axioms audited):
     operator_table_sound cmp_probe_agrees prec_probe_agrees function_table_sound
     nodetest_table_sound axis_table_sound pred_eval_sound pred_outcome_sound
-    substring_not_xpath ne_absent_not_xpath step_matches_eq_xp
+    substring_not_xpath ne_absent_not_xpath step_matches_eq_xp parser_rejects_outside
 -/
 import Genshi.Model.Path
 import Genshi.Model.PathParse
@@ -121,6 +121,51 @@ theorem axis_table_sound :
     Gen.Path.axisNames.map axisForName = [some .attribute, some .child, some .descendant, some .descendantOrSelf, some .self] ∧
     axisForName ['p','a','r','e','n','t'] = none ∧ axisForName ['a','n','c','e','s','t','o','r'] = none ∧
     axisForName ['f','o','l','l','o','w','i','n','g','-','s','i','b','l','i','n','g'] = none := by decide
+
+/-! ## The parser rejects what is outside the documented subset -/
+
+theorem fuel_succ (n : Nat) : 16 * (n + 2) = (16 * (n + 2) - 1) + 1 := by omega
+
+/-- **parser_rejects_outside.**  Whatever the rest of the expression is:
+    an absolute location path (`/…`), the parent abbreviation (`..`), every axis name other
+    than the five documented ones, and every function name that is not in `_function_map`
+    (in particular the seven doc/xpath.rst lists as unsupported) raise `PathSyntaxError`.
+    (Not rejected, hence recorded as findings: child paths inside predicates, an attribute step
+    that is not the last one, operators glued to names — C05-outside-not-rejected,
+    C05-attribute-step-not-last, C05-minus-is-a-name-character.) -/
+theorem parser_rejects_outside :
+    (∀ rest : List Str, parseTokens (['/'] :: rest) = .error .syntax) ∧
+    (∀ rest : List Str, parseTokens (['.', '.'] :: rest) = .error .syntax) ∧
+    (∀ (name : Str) (rest : List Str), axisForName name = none → name ≠ ['@'] → name ≠ ['.'] →
+        name ≠ ['.', '.'] → startsWithSlash name = false →
+        parseTokens (name :: [':', ':'] :: rest) = .error .syntax) ∧
+    (∀ (name : Str) (args : List Expr), lookup name Gen.Path.functionMap = none →
+        functionOf name args = .error .syntax) ∧
+    (∀ name ∈ [['c','o','u','n','t'], ['i','d'], ['l','a','n','g'], ['l','a','s','t'],
+               ['p','o','s','i','t','i','o','n'], ['s','t','r','i','n','g'], ['s','u','m']],
+        lookup name Gen.Path.functionMap = none) := by
+  refine ⟨?_, ?_, ?_, ?_, by decide⟩
+  · intro rest
+    unfold parseTokens
+    simp only [List.length_cons]
+    rw [fuel_succ]
+    simp [locLoop, cur, startsWithSlash, bind, Except.bind]
+  · intro rest
+    unfold parseTokens
+    simp only [List.length_cons]
+    rw [fuel_succ]
+    simp [locLoop, cur, startsWithSlash, bind, Except.bind, locationStep, pure, Except.pure]
+  · intro name rest h h1 h2 h3 h4
+    unfold parseTokens
+    simp only [List.length_cons]
+    rw [fuel_succ]
+    simp [locLoop, cur, h4, locationStep, h1, h2, h3, peek, atEnd, h, bind, Except.bind, pure, Except.pure]
+  · intro name args h
+    simp [functionOf, h]
+
+-- the hypotheses are satisfiable: `parent::a`, `following-sibling::a`
+example : parse "parent::a".toList = .error .syntax := by decide +kernel
+example : axisForName "following-sibling".toList = none := by decide +kernel
 
 /-! ## Predicate evaluation -/
 
